@@ -10,11 +10,15 @@ CFG = {
             "CHA/HPA/VPA, CUU/CUD/CUF/CUB/CNL/CPL, EL, ED, ECH, ICH, DCH, IL, DL, SU, SD, DECSTBM, IND, RI, NEL, DECSC/DECRC, ?1049 h/l, SGR). "
             "Oracle: the reference terminal Spec.Term (written from DESIGN Appendix A) is run on the same ops and must accept the IMPLEMENTATION's "
             "grid (grapheme, width, style, bce background), cursor, pending-wrap, pen and margins after every op (accept-sets where DEC and xterm "
-            "differ; `unconstrained` results re-synchronise). Streams: corpus (9 witnesses), bounded-exhaustive: every sequence of length 1 (full "
+            "differ; `unconstrained` results re-synchronise; round 4: judged through tokOfJ — a non-SGR function with a colon in its parameter string must be IGNORED, "
+            "known finding F106f). Streams: corpus (14 witnesses), bounded-exhaustive: every sequence of length 1 (full "
             "alphabet, ~104 ops: parameters omitted,0,1,2,size-1,size,size+1) and length 2 (quick: reduced x full, thorough: full x full) after "
             "5-6 setup prefixes (empty, filled, filled+scroll region, wide glyphs, pending wrap, cursor below region) on 2x2, 3x2, 3x3, 4x3; "
             "sampled length 3 (and 4 in thorough); random sequences of 5-40 ops on screens up to 20x8. distinct = distinct op sequences.",
-    "trusted_base": ["Spec.Term (lean/VaxisModel/Spec/Term.lean) and Spec.sgr are the reference; DESIGN Appendix A fixes their semantics",
+    "trusted_base": ["Spec.Term (lean/VaxisModel/Spec/Term.lean) and Spec.sgr are the reference; DESIGN Appendix A fixes their semantics; its header states the decisions on "
+                     "the edge of the vocabulary (colon sub-parameters outside SGR: ignored, as DEC STD 070 and xterm do; DECSTR: not a token; cursor shape: not constrained by C06)",
+                     "Spec.Display (the renderer-side reference of C01/C07/C11/C12) is the SAME terminal on the common vocabulary: display_refines_term (Props/C06Bridge.lean) — "
+                     "the hex decoder `dec` of the glyph strings is a parameter (DecOk: dec \"\" = [], dec \"20\" = [32])",
                      "uniseg grapheme widths are passed in the op line by the harness",
                      "a space glyph without underline/strike/reverse and a blank cell of the same background are treated as the same display "
                      "(TCell.norm); the content under the right half of a wide glyph is not compared"],
@@ -28,14 +32,22 @@ CFG = {
                   "emu_refines_from_start). Round 3: also CUP/HVP/DECSTBM with more than two parameters (emu_refines_term_two), OSC 8 hyperlinks "
                   "through the real dispatcher (emu_refines_term_osc8; Spec.Term has the token osc8), RIS from every state (emu_refines_term_ris), "
                   "and all histories over the extended vocabulary incl. long parameter lists, CUP/DECSTBM beyond two parameters, RIS and OSC 8 "
-                  "(emu_refines_histories_X, emu_refines_from_start_X). Witness/F21,F22,F54,F106a-e prove the statement was false before the repairs.",
+                  "(emu_refines_histories_X, emu_refines_from_start_X). Witness/F21,F22,F54,F106a-e prove the statement was false before the repairs. "
+                  "Round 4: ONE reference terminal — display_refines_term: for every token list of the renderer's vocabulary common to both (CUP, SGR, text of width 1 or 2, "
+                  "OSC 8, ?25 h/l, DECSCUSR) that Spec.Display runs without `bad`, every Spec.Term step returns a singleton accept-set (never unconstrained) and the two "
+                  "end states are related (cursor, pending wrap, pen, link, visibility, shape, every cell up to TCell.norm; cont and poison cells in exactly the same places); "
+                  "init_related, display_refines_term_from_start. The full statement over the oracle's vocabulary tokOfJ is FALSE of the current code exactly on non-SGR "
+                  "sequences with colon sub-parameters (Witness/F106f refines_J_fails; tokOfJ_region: elsewhere tokOfJ = tokOfX, the vocabulary of the proved theorems).",
     "level_note": "Proved for all states/parameters/histories: every operation of the vocabulary, SGR included (emu_refines_term_all, "
                   "emu_refines_histories_all, emu_refines_from_start_all; sgr_refines_spec: on every well-formed SGR sequence the emulator's pen "
-                  "abstracts to Spec.sgr). Restrictions: grapheme string non-empty (the parser never emits an empty one); non-SGR parameters with "
-                  "colon sub-parameters in a parameter the function reads are outside tokOfX on purpose (terminal specific: xterm ignores such a "
-                  "sequence; emu_subparams_ignored states what the emulator does: the main value is used); OSC 8 is inside the history theorem under 'the widget's OSC8 switch is on' (the default), "
-                  "which no operation changes (osc8_switch_stable); DECSTR has no arm in csi() "
-                  "(ignored; noted, not judged); SGR 6, 21, values > 255 and four malformed SGR shapes (notes/C06.md "
+                  "abstracts to Spec.sgr). Restrictions: grapheme string non-empty (the parser never emits an empty one); a non-SGR function with a colon anywhere in "
+                  "its parameter string is ignored by the reference (Spec.Term Tok.ignored: DEC STD 070 and xterm agree) while the emulator executes it on the main values "
+                  "(emu_subparams_ignored) — finding F106f, recorded (known-findings.d/C06.json; not repaired: the repair changes CSI ? 1:5 h, which C13's child-mode "
+                  "specification reads the other way), excluded from the refinement theorems (they are stated over tokOfX; NOTE tokOfX still maps a list whose LATER "
+                  "parameters carry sub-parameters to the function of the first — an emulator-side fact inside F106f's region, tokOfJ_ignored_of); OSC 8 is inside the history theorem under 'the widget's OSC8 switch is on' (the default), "
+                  "which no operation changes (osc8_switch_stable); DECSTR (CSI ! p) has no arm in csi() and is ignored — decided in Spec.Term: "
+                  "soft reset is not in the property's vocabulary, no token, not judged (for C13: a child that resets DECCKM/keypad mode through DECSTR keeps the application "
+                  "modes — recorded in notes/C05.md 'For C13'); RIS keeps the cursor SHAPE (C06 constrains grid and cursor position only: not judged); SGR 6, 21, values > 255 and four malformed SGR shapes (notes/C06.md "
                   "D1-D4) are terminal specific and outside the judged vocabulary. Model tied to the source by Gen/TermModes.lean (dispatch through "
                   "the regenerated tables) and by the C05 correspondence stream (snapshot after every op, incl. a slice of the C06 sequences); "
                   "the reference is additionally evaluated as oracle on the IMPLEMENTATION after every op of the bounded-exhaustive and random "
